@@ -1,139 +1,117 @@
-import TracklibVerif.Lemmas.GraphTable
+import TracklibVerif.Lemmas.GraphPath
 import TracklibVerif.Model.GraphAStar
-/-! Lemmas for C06 about the A* branch of `run_routing_forward` as coded (`forwardH`, `Model/GraphAStar.lean`): the
-relaxation with the heuristic term, the loop's end states (target popped / queue exhausted), reachability of the
-labelled nodes, and the case `heuristic = 0`, in which the loop is the Dijkstra loop. -/
+/-! Lemmas for C06 about the A* branch of `run_routing_forward` (`forwardH`, `Model/GraphAStar.lean`: label `g`, queue
+priority `g + h`), valid for ANY heuristic: what the queue pops, the loop's end states (a stop test fired / queue
+exhausted), the recorded entries, reachability of the labelled nodes, and the case `heuristic = 0`, in which the loop is
+the Dijkstra loop. (Exactness for a consistent heuristic: `Lemmas/GraphAStarFix.lean`.) -/
 set_option linter.unusedSectionVars false
 namespace TV.Graph
 variable {W : Type} [LinearOrder W] [Add W] [Zero W] [WalkAdd W]
 
-/-- the three outcomes of one relaxation -/
-theorem relaxOneH_cases (h : Nat → W) (u : Nat) (du : W) (st : St W) (e : Edge W) :
-    (relaxOneH h u du st e = st ∧ st.vis (other e u) = true) ∨
-    (relaxOneH h u du st e = st ∧ ∃ y0, st.d (other e u) = some y0) ∨
-    (st.vis (other e u) = false ∧
-      relaxOneH h u du st e = { st with d := fun z => if z = other e u then some (du + e.w + h (other e u)) else st.d z,
-                                        pred := fun z => if z = other e u then some (u, e.id) else st.pred z }) := by
-  by_cases hv : st.vis (other e u) = true
-  · left; exact ⟨by simp [relaxOneH, hv], hv⟩
-  · have hv' : st.vis (other e u) = false := by cases hq : st.vis (other e u) <;> simp_all
-    cases hd : st.d (other e u) with
-    | none => right; right; exact ⟨hv', by simp [relaxOneH, hv', hd]⟩
-    | some y0 =>
-      by_cases hlt : du + e.w < y0
-      · right; right; exact ⟨hv', by simp [relaxOneH, hv', hd, hlt]⟩
-      · right; left; exact ⟨by simp [relaxOneH, hv', hd, hlt], y0, rfl⟩
+/-- what `popMinKey` returns: nothing iff no unsettled node below `k` is labelled; otherwise an unsettled labelled node
+with its label, of minimal priority `label + h` -/
+theorem popMinKey_spec (h : Nat → W) (st : St W) (k : Nat) :
+    (popMinKey h st k = none → ∀ v, v < k → st.vis v = false → st.d v = none) ∧
+    (∀ u x, popMinKey h st k = some (u, x) → u < k ∧ st.vis u = false ∧ st.d u = some x ∧
+        ∀ v y, v < k → st.vis v = false → st.d v = some y → x + h u ≤ y + h v) := by
+  induction k with
+  | zero => exact ⟨fun _ v hv => by omega, fun u x hq => by simp [popMinKey] at hq⟩
+  | succ k ih =>
+    obtain ⟨ih1, ih2⟩ := ih
+    unfold popMinKey
+    by_cases hv : st.vis k = true
+    · simp only [hv, if_true]
+      constructor
+      · intro hq v hvk hvis
+        rcases Nat.lt_succ_iff_lt_or_eq.mp hvk with h' | h'
+        · exact ih1 hq v h' hvis
+        · subst h'; rw [hv] at hvis; cases hvis
+      · intro u x hq
+        obtain ⟨a, b, c, d⟩ := ih2 u x hq
+        refine ⟨by omega, b, c, ?_⟩
+        intro v y hvk hvis hd
+        rcases Nat.lt_succ_iff_lt_or_eq.mp hvk with h' | h'
+        · exact d v y h' hvis hd
+        · subst h'; rw [hv] at hvis; cases hvis
+    · have hv' : st.vis k = false := by cases hq : st.vis k <;> simp_all
+      simp only [hv', Bool.false_eq_true, if_false]
+      cases hd : st.d k with
+      | none =>
+        simp only []
+        constructor
+        · intro hq v hvk hvis
+          rcases Nat.lt_succ_iff_lt_or_eq.mp hvk with h' | h'
+          · exact ih1 hq v h' hvis
+          · subst h'; exact hd
+        · intro u x hq
+          obtain ⟨a, b, c, d⟩ := ih2 u x hq
+          refine ⟨by omega, b, c, ?_⟩
+          intro v y hvk hvis hdv
+          rcases Nat.lt_succ_iff_lt_or_eq.mp hvk with h' | h'
+          · exact d v y h' hvis hdv
+          · subst h'; rw [hd] at hdv; cases hdv
+      | some xk =>
+        simp only []
+        cases hb : popMinKey h st k with
+        | none =>
+          simp only []
+          constructor
+          · intro hq; cases hq
+          · intro u x hq
+            simp only [Option.some.injEq, Prod.mk.injEq] at hq
+            obtain ⟨rfl, rfl⟩ := hq
+            refine ⟨by omega, hv', hd, ?_⟩
+            intro v y hvk hvis hdv
+            rcases Nat.lt_succ_iff_lt_or_eq.mp hvk with h' | h'
+            · have := ih1 hb v h' hvis; rw [this] at hdv; cases hdv
+            · subst h'; rw [hd] at hdv; cases hdv; exact le_refl _
+        | some p =>
+          obtain ⟨ub, yb⟩ := p
+          obtain ⟨a, b, c, d⟩ := ih2 ub yb hb
+          simp only []
+          by_cases hlt : xk + h k < yb + h ub
+          · simp only [hlt, if_true]
+            constructor
+            · intro hq; cases hq
+            · intro u x hq
+              simp only [Option.some.injEq, Prod.mk.injEq] at hq
+              obtain ⟨rfl, rfl⟩ := hq
+              refine ⟨by omega, hv', hd, ?_⟩
+              intro v y hvk hvis hdv
+              rcases Nat.lt_succ_iff_lt_or_eq.mp hvk with h' | h'
+              · exact le_trans (le_of_lt hlt) (d v y h' hvis hdv)
+              · subst h'; rw [hd] at hdv; cases hdv; exact le_refl _
+          · simp only [hlt, if_false]
+            constructor
+            · intro hq; cases hq
+            · intro u x hq
+              simp only [Option.some.injEq, Prod.mk.injEq] at hq
+              obtain ⟨rfl, rfl⟩ := hq
+              refine ⟨by omega, b, c, ?_⟩
+              intro v y hvk hvis hdv
+              rcases Nat.lt_succ_iff_lt_or_eq.mp hvk with h' | h'
+              · exact d v y h' hvis hdv
+              · subst h'; rw [hd] at hdv; cases hdv; exact not_lt.mp hlt
 
-/-- what one relaxation with the heuristic term does -/
-theorem relaxOneH_spec (h : Nat → W) (u : Nat) (du : W) (st : St W) (e : Edge W) :
-    (relaxOneH h u du st e).vis = st.vis ∧
-    (∀ z, st.vis z = true → (relaxOneH h u du st e).d z = st.d z) ∧
-    (∀ z y, st.d z = some y → ∃ y', (relaxOneH h u du st e).d z = some y') ∧
-    (∀ z y', (relaxOneH h u du st e).d z = some y' →
-        st.d z = some y' ∨ (z = other e u ∧ y' = du + e.w + h z ∧ st.vis z = false)) ∧
-    (st.vis (other e u) = false → ∃ y, (relaxOneH h u du st e).d (other e u) = some y) := by
-  rcases relaxOneH_cases h u du st e with ⟨hR, hv⟩ | ⟨hR, y0, hy0⟩ | ⟨hv, hR⟩
-  · rw [hR]
-    exact ⟨rfl, fun _ _ => rfl, fun z y hz => ⟨y, hz⟩, fun z y' hz => Or.inl hz, fun hq => by rw [hv] at hq; cases hq⟩
-  · rw [hR]
-    exact ⟨rfl, fun _ _ => rfl, fun z y hz => ⟨y, hz⟩, fun z y' hz => Or.inl hz, fun _ => ⟨y0, hy0⟩⟩
-  · rw [hR]
-    refine ⟨rfl, ?_, ?_, ?_, ?_⟩
-    · intro z hz
-      have : z ≠ other e u := by intro hq; rw [hq, hv] at hz; cases hz
-      simp [this]
-    · intro z y hz
-      by_cases hq : z = other e u
-      · exact ⟨du + e.w + h (other e u), by simp [hq]⟩
-      · exact ⟨y, by simp [hq, hz]⟩
-    · intro z y' hz
-      by_cases hq : z = other e u
-      · right
-        simp only [hq, if_true, Option.some.injEq] at hz
-        exact ⟨hq, by rw [hq]; exact hz.symm, by rw [hq]; exact hv⟩
-      · left; simpa [hq] using hz
-    · intro _; exact ⟨du + e.w + h (other e u), by simp⟩
-
-/-- what the relaxation loop over `es` does -/
-theorem relaxAllH_spec (h : Nat → W) (u : Nat) (du : W) (es : List (Edge W)) (st : St W) :
-    (es.foldl (relaxOneH h u du) st).vis = st.vis ∧
-    (∀ z, st.vis z = true → (es.foldl (relaxOneH h u du) st).d z = st.d z) ∧
-    (∀ z y, st.d z = some y → ∃ y', (es.foldl (relaxOneH h u du) st).d z = some y') ∧
-    (∀ z y', (es.foldl (relaxOneH h u du) st).d z = some y' →
-        st.d z = some y' ∨ (∃ e ∈ es, z = other e u ∧ y' = du + e.w + h z ∧ st.vis z = false)) ∧
-    (∀ e ∈ es, st.vis (other e u) = false → ∃ y, (es.foldl (relaxOneH h u du) st).d (other e u) = some y) := by
-  induction es generalizing st with
-  | nil =>
-    exact ⟨rfl, fun _ _ => rfl, fun z y hz => ⟨y, hz⟩, fun z y' hz => Or.inl hz, fun e he => by simp at he⟩
-  | cons e es ih =>
-    obtain ⟨a1, a2, a3, a4, a5⟩ := relaxOneH_spec h u du st e
-    obtain ⟨b1, b2, b3, b4, b5⟩ := ih (relaxOneH h u du st e)
-    simp only [List.foldl_cons]
-    refine ⟨by rw [b1, a1], ?_, ?_, ?_, ?_⟩
-    · intro z hz
-      rw [b2 z (by rw [a1]; exact hz), a2 z hz]
-    · intro z y hz
-      obtain ⟨y1, h1⟩ := a3 z y hz
-      exact b3 z y1 h1
-    · intro z y' hz
-      rcases b4 z y' hz with h' | ⟨e', he', h1, h2, h3⟩
-      · rcases a4 z y' h' with h'' | ⟨h1, h2, h3⟩
-        · exact Or.inl h''
-        · exact Or.inr ⟨e, by simp, h1, h2, h3⟩
-      · exact Or.inr ⟨e', by simp [he'], h1, h2, by rw [← a1]; exact h3⟩
-    · intro e' he' hv
-      rcases List.mem_cons.mp he' with hq | hq
-      · subst hq
-        obtain ⟨y, hy⟩ := a5 hv
-        exact b3 _ y hy
-      · exact b5 e' hq (by rw [a1]; exact hv)
-
-/-- what settling the popped node does, with the heuristic term -/
-theorem settleH_spec (net : Net W) (h : Nat → W) (st : St W) (u : Nat) (du : W)
-    (hvl : ∀ z, st.vis z = true → ∃ y, st.d z = some y) (hu : st.d u = some du) :
-    (∀ z, (settleH net h st u du).vis z = if z = u then true else st.vis z) ∧
-    (∀ z, (z = u ∨ st.vis z = true) → (settleH net h st u du).d z = st.d z) ∧
-    (∀ z y, st.d z = some y → ∃ y', (settleH net h st u du).d z = some y') ∧
-    (∀ z y', (settleH net h st u du).d z = some y' → st.d z = some y' ∨
-        ∃ e ∈ nextEdges net u, z = other e u ∧ y' = du + e.w + h z) ∧
-    (∀ e ∈ nextEdges net u, ∃ y, (settleH net h st u du).d (other e u) = some y) := by
-  obtain ⟨r1, r2, r3, r4, r5⟩ := relaxAllH_spec h u du (nextEdges net u)
-    { st with vis := fun z => if z = u then true else st.vis z }
-  refine ⟨?_, ?_, ?_, ?_, ?_⟩
-  · intro z; unfold settleH; rw [r1]
-  · intro z hz
-    unfold settleH
-    rw [r2 z (by rcases hz with hq | hq <;> simp [hq])]
-  · intro z y hz; exact r3 z y hz
-  · intro z y' hz
-    rcases r4 z y' hz with h' | ⟨e, he, h1, h2, _⟩
-    · exact Or.inl h'
-    · exact Or.inr ⟨e, he, h1, h2⟩
-  · intro e he
-    by_cases hv : (if other e u = u then true else st.vis (other e u)) = true
-    · -- already settled (or the popped node itself): labelled before, unchanged
-      by_cases hq : other e u = u
-      · exact r3 _ du (by rw [hq]; exact hu)
-      · obtain ⟨y, hy⟩ := hvl (other e u) (by simpa [hq] using hv)
-        exact r3 _ y hy
-    · exact r5 e he (by simpa using hv)
+theorem popKey_facts {h : Nat → W} {st : St W} {k u : Nat} {du : W} (hp : popMinKey h st k = some (u, du)) :
+    u < k ∧ st.vis u = false ∧ st.d u = some du :=
+  ⟨((popMinKey_spec h st k).2 u du hp).1, ((popMinKey_spec h st k).2 u du hp).2.1, ((popMinKey_spec h st k).2 u du hp).2.2.1⟩
 
 /-! ### `heuristic = 0`: the loop is the Dijkstra loop -/
 
-theorem relaxOneH_zero (hadd : ∀ a : W, a + 0 = a) (h : Nat → W) (hz : ∀ v, h v = 0) (u : Nat) (du : W) (st : St W)
-    (e : Edge W) : relaxOneH h u du st e = relaxOne u du st e := by
-  unfold relaxOneH relaxOne
-  simp only [hz, hadd]
-  by_cases hv : st.vis (other e u) = true
-  · simp [hv]
-  · cases hd : st.d (other e u) <;> simp [hv]
-
-theorem settleH_zero (hadd : ∀ a : W, a + 0 = a) (net : Net W) (h : Nat → W) (hz : ∀ v, h v = 0) (st : St W) (u : Nat)
-    (du : W) : settleH net h st u du = settle net st u du := by
-  unfold settleH settle
-  congr 1
-  funext st e
-  exact relaxOneH_zero hadd h hz u du st e
+theorem popMinKey_zero (hadd : ∀ a : W, a + 0 = a) (h : Nat → W) (hz : ∀ v, h v = 0) (st : St W) (k : Nat) :
+    popMinKey h st k = popMinAux st k := by
+  induction k with
+  | zero => rfl
+  | succ k ih =>
+    unfold popMinKey popMinAux
+    simp only [ih, hz, hadd]
+    by_cases hv : st.vis k = true
+    · simp only [hv, if_true]
+    · simp only [hv, if_false]
+      cases st.d k with
+      | none => rfl
+      | some x => cases popMinAux st k <;> rfl
 
 theorem forwardH_zero (hadd : ∀ a : W, a + 0 = a) (net : Net W) (h : Nat → W) (hz : ∀ v, h v = 0) (tg : Option Nat)
     (cut : Option W) (f : Nat) (st : St W) (out : List (Nat × W)) :
@@ -142,11 +120,12 @@ theorem forwardH_zero (hadd : ∀ a : W, a + 0 = a) (net : Net W) (h : Nat → W
   | zero => rfl
   | succ f ih =>
     unfold forwardH forward
+    rw [popMinKey_zero hadd h hz]
     cases popMinAux st net.n with
     | none => rfl
     | some p =>
       obtain ⟨u, du⟩ := p
-      simp only [settleH_zero hadd net h hz, ih]
+      simp only [ih]
 
 /-! ### the loop over an abstract "pop" and "settle": how it can end -/
 
@@ -163,22 +142,11 @@ def loopG (pop : St W → Option (Nat × W)) (stl : St W → Nat → W → St W)
 
 theorem forwardH_eq_loopG (net : Net W) (h : Nat → W) (tg : Option Nat) (cut : Option W) (f : Nat) (st : St W)
     (out : List (Nat × W)) :
-    forwardH net h tg cut f st out = loopG (fun st => popMinAux st net.n) (settleH net h) tg cut f st out := by
+    forwardH net h tg cut f st out = loopG (fun st => popMinKey h st net.n) (settle net) tg cut f st out := by
   induction f generalizing st out with
   | zero => rfl
   | succ f ih =>
     unfold forwardH loopG
-    cases popMinAux st net.n with
-    | none => rfl
-    | some p => obtain ⟨u, du⟩ := p; simp only [ih]
-
-theorem forwardFix_eq_loopG (net : Net W) (h : Nat → W) (tg : Option Nat) (cut : Option W) (f : Nat) (st : St W)
-    (out : List (Nat × W)) :
-    forwardFix net h tg cut f st out = loopG (fun st => popMinKey h st net.n) (settle net) tg cut f st out := by
-  induction f generalizing st out with
-  | zero => rfl
-  | succ f ih =>
-    unfold forwardFix loopG
     cases popMinKey h st net.n with
     | none => rfl
     | some p => obtain ⟨u, du⟩ := p; simp only [ih]
@@ -229,25 +197,116 @@ theorem loopG_end (n : Nat) (pop : St W → Option (Nat × W)) (stl : St W → N
         simp only [hu, if_true] at this
         omega
 
-/-! ### the A* branch as coded: what can be said of its labels for any heuristic -/
+/-- the loop ends because a stop test fired on the node on top of the queue, or with nothing left to pop, or (fuel)
+with every node settled — any target, any cut-off -/
+theorem loopG_stop (n : Nat) (pop : St W → Option (Nat × W)) (stl : St W → Nat → W → St W)
+    (hpop : ∀ st u du, pop st = some (u, du) → u < n ∧ st.vis u = false)
+    (hvis : ∀ st u du z, (stl st u du).vis z = if z = u then true else st.vis z)
+    (tg : Option Nat) (cut : Option W) (f : Nat) (st : St W) (out : List (Nat × W)) (hf : cnt st n ≤ f) :
+    (∃ u du, pop (loopG pop stl tg cut f st out).1 = some (u, du) ∧ stops tg cut u du = true) ∨
+      pop (loopG pop stl tg cut f st out).1 = none ∨ cnt (loopG pop stl tg cut f st out).1 n = 0 := by
+  induction f generalizing st out with
+  | zero => right; right; simp only [loopG]; omega
+  | succ f ih =>
+    unfold loopG
+    cases hp : pop st with
+    | none => right; left; exact hp
+    | some p =>
+      obtain ⟨u, du⟩ := p
+      simp only []
+      by_cases hstop : stops tg cut u du = true
+      · simp only [hstop, if_true]
+        left; exact ⟨u, du, hp, hstop⟩
+      · simp only [hstop, Bool.false_eq_true, if_false]
+        apply ih
+        obtain ⟨hu, huv⟩ := hpop st u du hp
+        have := cnt_mark st (stl st u du) u huv (hvis st u du) n
+        simp only [hu, if_true] at this
+        omega
 
-/-- invariants of the loop with a heuristic term (any `h ≥ 0`): the source is labelled, the arcs out of settled nodes
-lead to labelled nodes, every label is at least the weight of some walk, settled nodes are labelled, labels sit on
-real nodes -/
-structure InvH (net : Net W) (s : Nat) (st : St W) : Prop where
+/-- for any target and cut-off: the recorded entries are exactly the visited nodes with their labels, and every visited
+node's label is within the cut-off (`forward_rec` of `Lemmas/GraphSessionQ.lean` for an abstract queue) -/
+theorem loopG_rec (pop : St W → Option (Nat × W)) (stl : St W → Nat → W → St W)
+    (hpop : ∀ st u du, pop st = some (u, du) → st.d u = some du)
+    (hvis : ∀ st u du z, (stl st u du).vis z = if z = u then true else st.vis z)
+    (hlab : ∀ st u du z, (z = u ∨ st.vis z = true) → (stl st u du).d z = st.d z)
+    (tgt : Option Nat) (cut : Option W) (f : Nat) (st : St W) (out : List (Nat × W))
+    (hout : ∀ u y, (u, y) ∈ out ↔ (st.vis u = true ∧ st.d u = some y))
+    (hcut : ∀ u y, st.vis u = true → st.d u = some y → Within cut y) :
+    (∀ u y, (u, y) ∈ (loopG pop stl tgt cut f st out).2 ↔
+      ((loopG pop stl tgt cut f st out).1.vis u = true ∧ (loopG pop stl tgt cut f st out).1.d u = some y)) ∧
+    (∀ u y, (loopG pop stl tgt cut f st out).1.vis u = true → (loopG pop stl tgt cut f st out).1.d u = some y →
+      Within cut y) := by
+  induction f generalizing st out with
+  | zero => exact ⟨hout, hcut⟩
+  | succ f ih =>
+    unfold loopG
+    cases hp : pop st with
+    | none => exact ⟨hout, hcut⟩
+    | some p =>
+      obtain ⟨u0, du⟩ := p
+      have hu0d := hpop st u0 du hp
+      simp only []
+      by_cases hstop : stops tgt cut u0 du = true
+      · simp only [hstop, if_true]; exact ⟨hout, hcut⟩
+      · simp only [hstop, Bool.false_eq_true, if_false]
+        have hwdu : Within cut du := by
+          intro c hc
+          have : ¬ (c < du) := by
+            intro hlt; apply hstop; simp [stops, hc, hlt]
+          exact not_lt.mp this
+        have s1 := hvis st u0 du
+        have s2 := hlab st u0 du
+        apply ih (stl st u0 du) (out ++ [(u0, du)])
+        · intro v z
+          rw [List.mem_append, List.mem_singleton, s1 v]
+          constructor
+          · rintro (h | h)
+            · obtain ⟨a, b⟩ := (hout v z).1 h
+              refine ⟨by split <;> simp [a], ?_⟩
+              rw [s2 v (Or.inr a)]; exact b
+            · simp only [Prod.mk.injEq] at h
+              obtain ⟨rfl, rfl⟩ := h
+              exact ⟨by simp, by rw [s2 v (Or.inl rfl)]; exact hu0d⟩
+          · rintro ⟨a, b⟩
+            by_cases hvu : v = u0
+            · subst hvu
+              rw [s2 v (Or.inl rfl), hu0d] at b
+              cases b
+              exact Or.inr rfl
+            · simp only [hvu, if_false] at a
+              rw [s2 v (Or.inr a)] at b
+              exact Or.inl ((hout v z).2 ⟨a, b⟩)
+        · intro v z a b
+          rw [s1 v] at a
+          by_cases hvu : v = u0
+          · subst hvu
+            rw [s2 v (Or.inl rfl), hu0d] at b
+            cases b
+            exact hwdu
+          · simp only [hvu, if_false] at a
+            rw [s2 v (Or.inr a)] at b
+            exact hcut v z a b
+
+/-! ### any heuristic: labels are weights of walks; without a cut-off the target is labelled iff it can be reached -/
+
+/-- invariants of the loop that do not depend on the order in which the queue is emptied: the source is labelled, the
+arcs out of settled nodes lead to labelled nodes, every label is the weight of a walk, settled nodes are labelled,
+labels sit on real nodes -/
+structure InvA (net : Net W) (s : Nat) (st : St W) : Prop where
   a1 : ∃ y, st.d s = some y
   a2 : ∀ u, st.vis u = true → ∀ v w, Arc net u v w → ∃ y, st.d v = some y
-  a3 : ∀ v y, st.d v = some y → ∃ c, Walk net s v c ∧ c ≤ y
+  a3 : ∀ v y, st.d v = some y → Walk net s v y
   a5 : ∀ u, st.vis u = true → ∃ x, st.d u = some x
   a6 : ∀ v y, st.d v = some y → v < net.n
 
-theorem invH_init (net : Net W) (s : Nat) (hs : s < net.n) : InvH net s (St.init s) := by
+theorem invA_init (net : Net W) (s : Nat) (hs : s < net.n) : InvA net s (St.init s) := by
   refine ⟨⟨0, by simp [St.init]⟩, ?_, ?_, ?_, ?_⟩
   · intro u hu; simp [St.init] at hu
   · intro v y hv
     simp only [St.init] at hv
     split at hv
-    · rename_i hq; subst hq; cases hv; exact ⟨0, Walk.nil, le_refl _⟩
+    · rename_i hq; subst hq; cases hv; exact Walk.nil
     · cases hv
   · intro u hu; simp [St.init] at hu
   · intro v y hv
@@ -256,29 +315,40 @@ theorem invH_init (net : Net W) (s : Nat) (hs : s < net.n) : InvH net s (St.init
     · rename_i hq; rw [hq]; exact hs
     · cases hv
 
-theorem settleH_inv (net : Net W) (hnet : WFNet net) (h : Nat → W) (hh : ∀ v, 0 ≤ h v) (s : Nat) (st : St W)
-    (hinv : InvH net s st) (u : Nat) (du : W) (hp : popMinAux st net.n = some (u, du)) :
-    InvH net s (settleH net h st u du) := by
-  obtain ⟨_, _, hud, _⟩ := popMin_facts hp
-  obtain ⟨s1, s2, s3, s4, s5⟩ := settleH_spec net h st u du hinv.a5 hud
+theorem settle_invA (net : Net W) (hnet : WFNet net) (s : Nat) (st : St W)
+    (hinv : InvA net s st) (u : Nat) (du : W) (hud : st.d u = some du) :
+    InvA net s (settle net st u du) := by
+  obtain ⟨s1, s2, s3, s4⟩ := settle_spec net st u du
+  obtain ⟨_, _, _, _, r5⟩ := relaxAll_spec u du (nextEdges net u)
+    { st with vis := fun z => if z = u then true else st.vis z }
   refine ⟨?_, ?_, ?_, ?_, ?_⟩
-  · obtain ⟨y, hy⟩ := hinv.a1; exact s3 s y hy
+  · obtain ⟨y, hy⟩ := hinv.a1
+    obtain ⟨y', hy', _⟩ := s3 s y hy
+    exact ⟨y', hy'⟩
   · intro x hx v w ha
     by_cases hxu : x = u
     · subst hxu
       obtain ⟨e, he, ho, _⟩ := (arc_iff_next net x v w).1 ha
-      rw [← ho]; exact s5 e he
+      by_cases hvv : (if other e x = x then true else st.vis (other e x)) = false
+      · obtain ⟨y, hy, _⟩ := r5 e he hvv
+        rw [← ho]; exact ⟨y, hy⟩
+      · have hold : ∃ y, st.d (other e x) = some y := by
+          by_cases hq : other e x = x
+          · rw [hq]; exact ⟨du, hud⟩
+          · simp only [hq, if_false] at hvv
+            exact hinv.a5 _ (by cases hb : st.vis (other e x) <;> simp_all)
+        obtain ⟨y, hy⟩ := hold
+        obtain ⟨y', hy', _⟩ := s3 _ y hy
+        rw [← ho]; exact ⟨y', hy'⟩
     · have hx_old : st.vis x = true := by rw [s1 x] at hx; simpa [hxu] using hx
       obtain ⟨y, hy⟩ := hinv.a2 x hx_old v w ha
-      exact s3 v y hy
+      obtain ⟨y', hy', _⟩ := s3 v y hy
+      exact ⟨y', hy'⟩
   · intro v y hv
-    rcases s4 v y hv with h' | ⟨e, he, h1, h2⟩
+    rcases s4 v y hv with h' | ⟨e, he, h1, h2, _⟩
     · exact hinv.a3 v y h'
-    · obtain ⟨c, hc, hcl⟩ := hinv.a3 u du hud
-      have ha : Arc net u v e.w := (arc_iff_next net u v e.w).2 ⟨e, he, h1.symm, rfl⟩
-      refine ⟨c + e.w, Walk.snoc hc ha, ?_⟩
-      rw [h2]
-      exact le_trans (WalkAdd.add_le_add c du e.w hcl) (WalkAdd.le_add_right _ _ (hh v))
+    · rw [h2]
+      exact Walk.snoc (hinv.a3 u du hud) ((arc_iff_next net u v e.w).2 ⟨e, he, h1.symm, rfl⟩)
   · intro x hx
     by_cases hxu : x = u
     · subst hxu; exact ⟨du, by rw [s2 x (Or.inl rfl)]; exact hud⟩
@@ -286,12 +356,12 @@ theorem settleH_inv (net : Net W) (hnet : WFNet net) (h : Nat → W) (hh : ∀ v
       obtain ⟨a, ha⟩ := hinv.a5 x hx_old
       exact ⟨a, by rw [s2 x (Or.inr hx_old)]; exact ha⟩
   · intro v y hv
-    rcases s4 v y hv with h' | ⟨e, he, h1, _⟩
+    rcases s4 v y hv with h' | ⟨e, he, h1, _, _⟩
     · exact hinv.a6 v y h'
     · exact (arc_wf hnet ((arc_iff_next net u v e.w).2 ⟨e, he, h1.symm, rfl⟩)).1
 
 /-- when every labelled node is settled, every node joined to the source by a walk is labelled -/
-theorem invH_closed (net : Net W) (s : Nat) (st : St W) (hinv : InvH net s st)
+theorem invA_closed (net : Net W) (s : Nat) (st : St W) (hinv : InvA net s st)
     (hdone : ∀ v y, st.d v = some y → st.vis v = true) (v : Nat) (c : W) (hw : Walk net s v c) :
     ∃ y, st.d v = some y := by
   induction hw with
@@ -300,73 +370,46 @@ theorem invH_closed (net : Net W) (s : Nat) (st : St W) (hinv : InvH net s st)
     obtain ⟨y, hy⟩ := ih
     exact hinv.a2 _ (hdone _ y hy) _ _ ha
 
-/-- `shortest_distance(s, t)` in A* mode as coded, any heuristic `h ≥ 0`: a reported value is never below the weight of
-some permitted walk (hence never below the minimum); and without a cut-off the sentinel is reported exactly when no
-walk exists. -/
-theorem shortestDistanceH_spec (net : Net W) (hnet : WFNet net) (h : Nat → W) (hh : ∀ v, 0 ≤ h v) (s t : Nat)
-    (hs : s < net.n) :
-    (∀ cut y, shortestDistanceH net h s t cut = some y → ∃ c, Walk net s t c ∧ c ≤ y) ∧
+/-- `shortest_distance(s, t)` in A* mode, ANY heuristic (consistent or not, of any sign): a reported value is the weight
+of a permitted walk (hence never below the minimum), with any cut-off; and without a cut-off the sentinel is reported
+exactly when no walk exists. -/
+theorem shortestDistanceH_any (net : Net W) (hnet : WFNet net) (h : Nat → W) (s t : Nat) (hs : s < net.n) :
+    (∀ cut y, shortestDistanceH net h s t cut = some y → Walk net s t y) ∧
     (shortestDistanceH net h s t none = none ↔ ¬ Reachable net s t) := by
-  have hQ : ∀ st u du, InvH net s st → popMinAux st net.n = some (u, du) → InvH net s (settleH net h st u du) :=
-    fun st u du hi hp => settleH_inv net hnet h hh s st hi u du hp
+  have hQ : ∀ st u du, InvA net s st → popMinKey h st net.n = some (u, du) → InvA net s (settle net st u du) :=
+    fun st u du hi hp => settle_invA net hnet s st hi u du (popKey_facts hp).2.2
   constructor
   · intro cut y hy
     unfold shortestDistanceH runForwardH at hy
     rw [forwardH_eq_loopG] at hy
-    exact (loopG_preserves _ _ (InvH net s) hQ (some t) cut net.n _ _ (invH_init net s hs)).a3 t y hy
+    exact (loopG_preserves _ _ (InvA net s) hQ (some t) cut net.n _ _ (invA_init net s hs)).a3 t y hy
   · unfold shortestDistanceH runForwardH
     rw [forwardH_eq_loopG]
-    have hinv := loopG_preserves _ _ (InvH net s) hQ (some t) none net.n (St.init s) [] (invH_init net s hs)
-    have hend := loopG_end net.n (fun st => popMinAux st net.n) (settleH net h)
-      (fun st u du hp => ⟨(popMin_facts hp).1, (popMin_facts hp).2.1⟩)
-      (fun st u du z => by
-        unfold settleH
-        rw [(relaxAllH_spec h u du (nextEdges net u) _).1])
+    have hinv := loopG_preserves _ _ (InvA net s) hQ (some t) none net.n (St.init s) [] (invA_init net s hs)
+    have hend := loopG_end net.n (fun st => popMinKey h st net.n) (settle net)
+      (fun st u du hp => ⟨(popKey_facts hp).1, (popKey_facts hp).2.1⟩)
+      (fun st u du z => (settle_spec net st u du).1 z)
       t net.n (St.init s) [] (cnt_le _ _)
-    generalize (loopG (fun st => popMinAux st net.n) (settleH net h) (some t) none net.n (St.init s) []).1 = r at hinv hend
+    generalize (loopG (fun st => popMinKey h st net.n) (settle net) (some t) none net.n (St.init s) []).1 = r at hinv hend
     constructor
     · intro hn ⟨c, hc⟩
       have hdone : ∀ v y, r.d v = some y → r.vis v = true := by
         rcases hend with ⟨du, hp⟩ | hp | hc0
-        · rw [(popMin_facts hp).2.2.1] at hn; cases hn
+        · rw [(popKey_facts hp).2.2] at hn; cases hn
         · intro v y hv
           by_contra hq
           have hq' : r.vis v = false := by cases hx : r.vis v <;> simp_all
-          rw [(popMinAux_spec r net.n).1 hp v (hinv.a6 v y hv) hq'] at hv; cases hv
+          rw [(popMinKey_spec h r net.n).1 hp v (hinv.a6 v y hv) hq'] at hv; cases hv
         · intro v y hv
           exact cnt_zero_all r net.n hc0 v (hinv.a6 v y hv)
-      obtain ⟨y, hy⟩ := invH_closed net s r hinv hdone t c hc
+      obtain ⟨y, hy⟩ := invA_closed net s r hinv hdone t c hc
       rw [hn] at hy; cases hy
     · intro hn
       cases hd : r.d t with
       | none => rfl
-      | some y =>
-        obtain ⟨c, hc, _⟩ := hinv.a3 t y hd
-        exact absurd ⟨c, hc⟩ hn
+      | some y => exact absurd ⟨y, hinv.a3 t y hd⟩ hn
 
 /-! ### the flags an A* search leaves sit on nodes joined to the source (so: on nodes of `NODES`) -/
-
-theorem relaxOneH_pred (h : Nat → W) (u : Nat) (du : W) (st : St W) (e : Edge W) (z : Nat)
-    (hz : (relaxOneH h u du st e).pred z ≠ st.pred z) : ∃ y, (relaxOneH h u du st e).d z = some y := by
-  rcases relaxOneH_cases h u du st e with ⟨hR, _⟩ | ⟨hR, _⟩ | ⟨_, hR⟩
-  · rw [hR] at hz; exact absurd rfl hz
-  · rw [hR] at hz; exact absurd rfl hz
-  · rw [hR] at hz ⊢
-    by_cases hq : z = other e u
-    · exact ⟨du + e.w + h (other e u), by simp [hq]⟩
-    · simp [hq] at hz
-
-theorem relaxAllH_pred (h : Nat → W) (u : Nat) (du : W) (es : List (Edge W)) (st : St W) (z : Nat)
-    (hz : (es.foldl (relaxOneH h u du) st).pred z ≠ st.pred z) : ∃ y, (es.foldl (relaxOneH h u du) st).d z = some y := by
-  induction es generalizing st with
-  | nil => exact absurd rfl hz
-  | cons e es ih =>
-    simp only [List.foldl_cons] at hz ⊢
-    by_cases hq : (es.foldl (relaxOneH h u du) (relaxOneH h u du st e)).pred z = (relaxOneH h u du st e).pred z
-    · rw [hq] at hz
-      obtain ⟨y, hy⟩ := relaxOneH_pred h u du st e z hz
-      exact (relaxAllH_spec h u du es _).2.2.1 z y hy
-    · exact ih _ hq
 
 /-- every labelled node is joined to the source by a walk; settled nodes and nodes with a predecessor are labelled -/
 structure InvC (net : Net W) (s : Nat) (st : St W) : Prop where
@@ -384,13 +427,12 @@ theorem invC_init (net : Net W) (s : Nat) : InvC net s (St.init s) := by
   · intro v hv; simp [St.init] at hv
   · intro v p hv; simp [St.init] at hv
 
-theorem settleH_invC (net : Net W) (h : Nat → W) (s : Nat) (st : St W) (hinv : InvC net s st) (u : Nat) (du : W)
-    (hp : popMinAux st net.n = some (u, du)) : InvC net s (settleH net h st u du) := by
-  obtain ⟨_, _, hud, _⟩ := popMin_facts hp
-  obtain ⟨s1, s2, s3, s4, _⟩ := settleH_spec net h st u du hinv.c2 hud
+theorem settle_invC (net : Net W) (s : Nat) (st : St W) (hinv : InvC net s st) (u : Nat) (du : W)
+    (hud : st.d u = some du) : InvC net s (settle net st u du) := by
+  obtain ⟨s1, s2, s3, s4⟩ := settle_spec net st u du
   refine ⟨?_, ?_, ?_⟩
   · intro v y hv
-    rcases s4 v y hv with h' | ⟨e, he, h1, _⟩
+    rcases s4 v y hv with h' | ⟨e, he, h1, _, _⟩
     · exact hinv.c1 v y h'
     · obtain ⟨c, hc⟩ := hinv.c1 u du hud
       exact ⟨c + e.w, Walk.snoc hc ((arc_iff_next net u v e.w).2 ⟨e, he, h1.symm, rfl⟩)⟩
@@ -401,16 +443,17 @@ theorem settleH_invC (net : Net W) (h : Nat → W) (s : Nat) (st : St W) (hinv :
       obtain ⟨a, ha⟩ := hinv.c2 x hx_old
       exact ⟨a, by rw [s2 x (Or.inr hx_old)]; exact ha⟩
   · intro v p hv
-    by_cases hq : (settleH net h st u du).pred v = st.pred v
-    · rw [hq] at hv
-      obtain ⟨y, hy⟩ := hinv.c3 v p hv
-      exact s3 v y hy
-    · exact relaxAllH_pred h u du (nextEdges net u) { st with vis := fun z => if z = u then true else st.vis z } v hq
+    obtain ⟨a, i⟩ := p
+    rcases (relaxAll_pred u du (nextEdges net u) { st with vis := fun z => if z = u then true else st.vis z }).1 v a i hv with
+      ⟨h1, h2⟩ | ⟨_, e, _, _, _, _, h5, _⟩
+    · obtain ⟨y, hy⟩ := hinv.c3 v (a, i) h1
+      exact ⟨y, by unfold settle; rw [h2]; exact hy⟩
+    · exact ⟨du + e.w, h5⟩
 
 /-- the flags left by `run_routing_forward` in A* mode are on nodes joined to the source only, whatever the heuristic -/
 theorem forwardH_invC (net : Net W) (h : Nat → W) (s : Nat) (tg : Option Nat) (cut : Option W) :
     InvC net s (forwardH net h tg cut net.n (St.init s) []).1 := by
   rw [forwardH_eq_loopG]
-  exact loopG_preserves _ _ (InvC net s) (fun st u du hi hp => settleH_invC net h s st hi u du hp) tg cut net.n _ _
+  exact loopG_preserves _ _ (InvC net s) (fun st u du hi hp => settle_invC net s st hi u du (popKey_facts hp).2.2) tg cut net.n _ _
     (invC_init net s)
 end TV.Graph
